@@ -286,7 +286,8 @@ class CLI:
         strict = not self._args.non_strict
         mc.merge(strict=strict)
         if self._args.outfile:
-            with open(self._args.outfile, 'w') as f:
+            # the document has no XML declaration, so its bytes have to be UTF-8 whatever the locale says
+            with open(self._args.outfile, 'w', encoding='utf-8') as f:
                 print("Writing merged running order to", self._args.outfile)
                 f.write(str(mc))
         else:
